@@ -26,6 +26,9 @@ type Attack struct {
 	// Benign is true when the operator leaves every signed unit intact and in place, so
 	// acceptance is legitimate (the conservation oracle still applies).
 	Benign bool
+	// EncNotAssertion: the EncryptedAssertion this operator added decrypts to something that
+	// is not an assertion (so it is not an assertion the message "carries").
+	EncNotAssertion bool
 }
 
 var AttackOps = []string{
@@ -34,6 +37,7 @@ var AttackOps = []string{
 	"shadow_attribute", "comment_inject", "ns_rebind", "relocate_signature", "evil_sibling", "nest_in_response",
 	"attacker_encrypt", "cdata_inject", "swap_signature_values",
 	"root_id_collision", "keyinfo_swap", "duplicate_signature", "doctype_entity", "attacker_signed_sibling", "whitespace_in_signed",
+	"result_field_injection",
 }
 
 func el(doc *etree.Document) *etree.Element { return doc.Root() }
@@ -132,6 +136,14 @@ func evilise(a *etree.Element, t *core.Tape) string {
 func evilCopy(a *etree.Element, idMode int, t *core.Tape) (*etree.Element, string) {
 	e := a.Copy()
 	removeSig(e)
+	// the forged copy stays small whatever the size of the genuine one
+	if as := firstByTag(e, "AttributeStatement"); as != nil {
+		for _, at := range childrenByTag(as, "Attribute") {
+			if len(at.ChildElements()) > 50 {
+				as.RemoveChild(at)
+			}
+		}
+	}
 	desc := ""
 	switch idMode {
 	case 0: // same ID
@@ -828,6 +840,52 @@ func (ad *Adversary) Build(t *core.Tape, op string, hist []IssuedMsg) (*Attack, 
 		atk.XML = docString(d)
 		return atk, true
 
+	case "result_field_injection":
+		// attributes / children named after fields of the library's result structs that are
+		// meant to be set by the library only (trust indicators)
+		m := pick("adv.msg", plainAssertions)
+		if m == nil {
+			return nil, false
+		}
+		where := t.Int(4, "adv.inject.where")
+		form := []string{` SignatureValidated="true"`, ` SignatureValidated="1"`, ` xmlns:sv="urn:x" sv:SignatureValidated="true"`, ` signaturevalidated="true"`}[t.Int(4, "adv.inject.form")]
+		x := m.XML
+		inject := func(id string) bool {
+			for _, q := range []string{`"`, `'`} {
+				needle := `ID=` + q + id + q
+				if strings.Contains(x, needle) {
+					x = strings.Replace(x, needle, needle+form, 1)
+					return true
+				}
+			}
+			return false
+		}
+		okAny := false
+		if where == 0 || where == 2 {
+			for _, a := range m.Logical.Assertions {
+				okAny = inject(a.ID) || okAny
+			}
+		}
+		if where == 1 || where == 2 {
+			okAny = inject(m.Logical.ID) || okAny
+		}
+		if where == 3 {
+			d := parse(m)
+			for _, a := range childrenByTag(el(d), "Assertion") {
+				pa, _ := prefixFor(a, NSAssertion)
+				c := etree.NewElement(pa + "SignatureValidated")
+				c.SetText("true")
+				a.AddChild(c)
+				okAny = true
+			}
+			x = docString(d)
+		}
+		if !okAny {
+			return nil, false
+		}
+		atk.XML, atk.Detail = x, fmt.Sprintf("where=%d,form=%s", where, strings.TrimSpace(form))
+		return atk, true
+
 	case "attacker_encrypt":
 		if ad.SPPub == nil {
 			return nil, false
@@ -879,9 +937,11 @@ func (ad *Adversary) Build(t *core.Tape, op string, hist []IssuedMsg) (*Attack, 
 		case 3: // not an assertion at all
 			pt = `<saml:Advice xmlns:saml="` + NSAssertion + `"><saml:NameID>mallory</saml:NameID></saml:Advice>`
 			atk.Detail = "non-assertion"
+			atk.EncNotAssertion = true
 		default:
 			pt = "garbage \x01\x02<<<"
 			atk.Detail = "garbage"
+			atk.EncNotAssertion = true
 		}
 		eo := &EncOpts{DataAlg: DataAlgs[t.Int(len(DataAlgs), "adv.enc.data")], KeyAlg: KeyAlgs[t.Int(len(KeyAlgs), "adv.enc.key")], Recipient: ad.SPPub, Rand: t.SubRand("adv.enc.rand")}
 		if t.Bool("adv.enc.embed") {
@@ -975,4 +1035,25 @@ func DirectAssertionIDs(xml string) (map[string]bool, bool) {
 		}
 	}
 	return ids, enc
+}
+
+// CarriedAssertions counts the direct children of the document root that are SAML
+// assertions (namespace-aware) and those that are EncryptedAssertion elements.
+func CarriedAssertions(xml string) (plain, encrypted int) {
+	d, err := parseDoc(xml)
+	if err != nil || d.Root() == nil {
+		return 0, 0
+	}
+	for _, c := range d.Root().ChildElements() {
+		if c.NamespaceURI() != NSAssertion {
+			continue
+		}
+		switch c.Tag {
+		case "Assertion":
+			plain++
+		case "EncryptedAssertion":
+			encrypted++
+		}
+	}
+	return
 }
